@@ -71,7 +71,28 @@ func c06Subtree(r *R) {
 			_ = ctx.Scheduler().Loop(ctx.Ref(), 150*time.Millisecond, c06Tick{Owner: p.Path}, vivid.WithSchedulerReference("l2"))
 		}
 	}
-	mk := func(name string) *Spec { return &Spec{Name: name, OnLaunch: launch, OnOther: onOther} }
+	// In some runs every actor with children answers the termination of a child by spawning a replacement ("keep N workers
+	// alive") - also while it is itself on its way out, when that death was its last one: the replacement is a descendant
+	// like any other, is killed with its parent, and the parent is reported terminated after it.
+	respawnOnChildDeath := r.Chance(35)
+	parent := map[string]string{"/a": "/"}
+	var mk func(name string) *Spec
+	childKilled := func(ctx vivid.ActorContext, p *Probe, ref vivid.ActorRef) {
+		if !respawnOnChildDeath || ref.Equals(ctx.Ref()) || strings.Contains(ref.GetPath(), "/re") {
+			return
+		}
+		name := fmt.Sprintf("re%d", w.NewID())
+		path := strings.TrimSuffix(p.Path, "/") + "/" + name
+		if _, err := w.SpawnIn(ctx, mk(name)); err == nil {
+			mu.Lock()
+			parent[path] = p.Path
+			mu.Unlock()
+			r.Count("child-respawned-on-a-child's-death")
+		}
+	}
+	mk = func(name string) *Spec {
+		return &Spec{Name: name, OnLaunch: launch, OnOther: onOther, OnKilled: childKilled}
+	}
 	top := mk("a")
 	if r.Chance(20) {
 		// a top-level actor watches its own parent, the root actor (the only actor without a parent)
@@ -82,7 +103,6 @@ func c06Subtree(r *R) {
 		}
 	}
 	paths := []string{"/a"}
-	parent := map[string]string{"/a": "/"}
 	nB := 1 + r.Choose(3)
 	for i := 0; i < nB; i++ {
 		b := mk(fmt.Sprintf("b%d", i))
